@@ -173,7 +173,7 @@ def draw_plan(rng: random.Random, prop: str, tier: str = "quick", methods=None, 
             ops.append({"op": "other", "cfg_key": rng.choice(["cfg2", "variant", "variant"])})
         else:
             ops.append({"op": k, "mgr": "A"})
-    if prop in ("C13", "C02") and rng.random() < 0.1:
+    if prop in ("C13", "C02") and rng.random() < (0.1 if prop == "C13" else 0.25):
         # fail-then-retry: a capped search that ends in "Search failed." (loads far too large, policy off), then only the
         # loads are replaced on the same manager by ones that still need more boreholes than the cap allows
         m2 = rng.choice(["NEARSQUARE", "RECTANGLE", "BIRECTANGLE", "BIRECTANGLE", "BIZONEDRECTANGLE"])
@@ -519,9 +519,9 @@ def _check_find(ctx: Ctx, i, op, out, cfg):
             diff = [k for k in set(a) | set(b) if not close(a.get(k), b.get(k))[0]]
             detail = f"after {ctx.shape} the result differs from a fresh manager in {sorted(diff)} (first at {where})"
             if "H" in diff:
-                detail += f" (H {a['H']!r} vs {b['H']!r})"
+                detail += f" (H {a.get('H')!r} vs {b.get('H')!r})"
             if "nbh" in diff:
-                detail += f" ({a['nbh']} vs {b['nbh']} boreholes)"
+                detail += f" ({a.get('nbh')} vs {b.get('nbh')} boreholes)"
             if "exc" in diff:
                 detail += f" ({a.get('exc')}:{a.get('msg')} vs {b.get('exc')}:{b.get('msg')})"
             ctx.violation(Violation("C13", "find_differs_from_fresh", detail, site=f"find_after:{op['op']}"), i,
